@@ -202,10 +202,10 @@ theorem isSome_false {α} {o : Option α} (h : o.isSome = false) : o = none := b
 
 /-- **float reader ⇒ float writer.** Whatever the three float arms of the decoder accept is
     written back bit-identically by `enc_float`. -/
-theorem decFloat_canon {info : Nat} {bs rest : Bytes} {v : Val}
+theorem decFloat_canon {info : Nat} {bs rest : Bytes} {v : Val} (d : Nat)
     (hi : info = decF16 ∨ info = decF32 ∨ info = decF64)
     (h : decFloat info bs = .ok (v, rest)) :
-    ∃ e, enc v = .ok e ∧ UInt8.ofNat (224 + info) :: bs = e ++ rest := by
+    ∃ e, enc d v = .ok e ∧ UInt8.ofNat (224 + info) :: bs = e ++ rest := by
   unfold decFloat at h
   rcases hi with rfl | rfl | rfl
   · rw [if_pos rfl] at h
